@@ -84,6 +84,13 @@ def _collect(tmp: Path, rc, t0, timed_out=False):
         res["log"], res["extra"] = d["log"], d["extra"]
     except Exception:  # noqa
         pass
+    for w in sorted(tmp.glob("rec.json.*")):
+        try:
+            d = json.loads(w.read_text())
+            res["log"] += d["log"]
+            res["extra"] += d["extra"]
+        except Exception:  # noqa
+            pass
     return res
 
 
